@@ -23,7 +23,7 @@ CORR_ONLY = ["floating-point evaluation noise: when the function value at the re
              "sign-change clause is decided with a noise allowance (counted as noise-excused)",
              "NaN returned inside the bracket is not modelled (undef)"]
 ASSUMPTIONS = ["the user function is a pure function, continuous on the bracket",
-               "sqrt is modelled by a parameter sq with y <= sq(y)^2 (theorems) / a 256-bit rounded-up root (driver)",
+               "sqrt is modelled by a parameter sq with y <= sq(y)^2 (theorems) / a 256-bit rounded-up root (driver): proved to be an instance (sqrtRat_sqOK, sqrtRat_sq_exact)",
                "theorems are about exact real arithmetic (rnd = id); the driver rounds the new iterate to 2^-200"]
 TRUSTED = ["mpmath evaluation of atan/erf/tanh/pow/exp/log/cos as the sign reference for the transcendental families"]
 
